@@ -70,6 +70,7 @@ def oracleC03 (c : TCase) : Verdict :=
         | ["bytes", n, o] =>
           match n.toNat?, outBytes? o with
           | some used, some out =>
+            if s.ended && !input.isEmpty then { s with fail := some s!"a non-empty write after the terminating chunk was accepted instead of refused: {t.raw}" } else
             if out.length > cap then { s with fail := some s!"produced {out.length} > output space {cap}: {t.raw}" } else
             if used > input.length then { s with fail := some s!"consumed more than offered: {t.raw}" } else
             match specDecode (out.length + 2) out with
@@ -109,6 +110,8 @@ structure C04St where
   finished : Bool := false   -- exact accounting reached AND the end signalled (an empty write accepted at 0 left): from here on it must be reported
   fail : Option String := none
   needFull : Bool := false
+  callHead : Bytes := []          -- single-call API: head bytes emitted so far
+  callHeadDone : Bool := false
 
 def contentLengthOf (c : TCase) : Option Nat :=
   if declaresChunked c then none else
@@ -124,9 +127,25 @@ def oracleC04 (c : TCase) : Verdict :=
     | ls => ls
   let st := lines.foldl (fun (s : C04St) t =>
     if s.fail.isSome || s.needFull then s else
-    if t.st != "sendBody" && t.kw != "proceed" && t.kw != "proceed!" then s else
+    -- the single-call API: `write` emits the head first (consuming nothing); body accounting starts after it
+    if t.kw == "cbwrite" && !s.callHeadDone then
+      (match t.res with
+       | ["bytes", _, o] =>
+         let w := s.callHead ++ (if o == "-" || o.startsWith "#" then [] else unhex o)
+         { s with callHead := w, callHeadDone := w.length ≥ 4 && w.drop (w.length - 4) == [13, 10, 13, 10] }
+       | _ => s) else
+    if t.st != "sendBody" && t.st != "callBody" && t.kw != "proceed" && t.kw != "proceed!" && t.kw != "cinto" then s else
     match t.kw with
-    | "bwrite" | "bwriten" =>
+    | "cfinished" =>
+      (match t.res with
+       | ["bool", "true"] => if s.left != 0 then { s with fail := some s!"is_finished() with {s.left} bytes unaccounted: {t.raw}" } else s
+       | ["bool", "false"] => if s.finished then { s with fail := some s!"is_finished() false although all {N} bytes are accounted for and the end was signalled: {t.raw}" } else s
+       | _ => s)
+    | "cinto" =>
+      (match t.res with
+       | "state" :: _ => if s.left != 0 then { s with fail := some s!"into_receive() succeeded with {s.left} bytes unaccounted: {t.raw}" } else s
+       | _ => s)
+    | "bwrite" | "bwriten" | "cbwrite" =>
       match bwriteInput t.op with
       | none => s
       | some (input, cap) =>
